@@ -40,3 +40,23 @@ func VerifC12PickFallback(responseErrors, configErrors []*dns.Msg, fatalErrors [
 
 // VerifC12IsFatal reports whether err is the "every authority failed" wrapper.
 func VerifC12IsFatal(err error) bool { return isFatalError(err) }
+
+// VerifC12BreakerFailures reports the servers the shared circuit breaker currently holds failures
+// against (consecutive-failure count, or -1 when the server is disabled). Read-only.
+func VerifC12BreakerFailures(r *Resolver) map[string]int32 {
+	out := map[string]int32{}
+	if r == nil || r.circuitBreaker == nil {
+		return out
+	}
+	r.circuitBreaker.mu.RLock()
+	defer r.circuitBreaker.mu.RUnlock()
+	for addr, sf := range r.circuitBreaker.failures {
+		switch {
+		case sf.disabled.Load():
+			out[addr] = -1
+		case sf.count.Load() > 0:
+			out[addr] = sf.count.Load()
+		}
+	}
+	return out
+}
